@@ -111,6 +111,18 @@ use crate::util::{arg_u64, write_out, Rng};
 use garble_lang::circuit::{Circuit as SsaCircuit, Gate};
 use garble_lang::register_circuit::{And, Circuit as RegCircuit, Input, Inst, Not, Op, Reg, Xor};
 
+/// compiled programs (source, every parameter has zero bits)
+const COMPILED: [(&str, bool); 8] = [
+    ("pub fn main(x: u8, y: bool) -> u8 { if y { x } else { x + 1u8 } }", false),
+    ("pub fn main(x: [u8; 0], y: bool) -> bool { y }", false),
+    ("pub fn main(x: bool, y: [u8; 0]) -> [u8; 0] { y }", false),
+    ("pub fn main(a: [(u8, bool); 2]) -> u8 { a[0].0 & a[1].0 }", false),
+    ("pub fn main(x: [bool; 0]) -> bool { true }", true),
+    ("pub fn main(x: [u8; 0]) -> [u8; 0] { x }", true),
+    ("struct S {}\npub fn main(x: S) -> bool { true }", true),
+    ("pub fn main(x: ()) -> bool { true }", true),
+];
+
 fn all_inputs(shape: &[usize]) -> Vec<Vec<Vec<bool>>> {
     let total: usize = shape.iter().sum();
     let mut res = vec![];
@@ -231,6 +243,32 @@ pub fn search(args: &[String]) -> i32 {
         write_out(args, &format!("kind: c16-circuit\nobserved: {what}\n"));
         3
     };
+    // ---- circuits produced by the compiler and by the conversion pass their validation (and evaluate without a panic)
+    let known: Vec<String> = crate::util::arg(args, "--known").map(|s| s.split(',').map(|x| x.to_string()).collect()).unwrap_or_default();
+    let mut f1 = 0;
+    for (src, zero_bits) in COMPILED {
+        let r = catch_unwind(AssertUnwindSafe(|| -> Result<(), String> {
+            let prg = garble_lang::compile(src).map_err(|_| "rejected".to_string())?;
+            let garble_lang::circuit_type::CircuitType::Ssa(c) = &prg.circuit else { return Ok(()) };
+            c.validate().map_err(|e| format!("the compiled SSA circuit fails its validation: {e:?}"))?;
+            let inputs: Vec<Vec<bool>> = c.input_gates.iter().map(|n| vec![true; *n]).collect();
+            let out = c.eval(&inputs);
+            if out.len() != c.output_gates.len() { return Err("eval returns the wrong number of output bits".to_string()); }
+            let reg = RegCircuit::from(c);
+            reg.validate().map_err(|e| format!("the converted register circuit fails its validation: {e:?}"))?;
+            if reg.eval(&inputs) != out { return Err("the converted circuit computes something else".to_string()); }
+            Ok(())
+        }));
+        let what = match r { Ok(Ok(())) => continue, Ok(Err(w)) if w == "rejected" => continue, Ok(Err(w)) => w, Err(_) => "panic while validating / evaluating / converting the compiled circuit".to_string() };
+        if zero_bits && known.iter().any(|k| k == "C16-F1") {
+            f1 += 1;
+            continue;
+        }
+        return fail(args, format!("{what}\nprogram: {src}"));
+    }
+    if f1 > 0 {
+        println!("known-finding: C16-F1 cases={f1} example=pub fn main(x: [bool; 0]) -> bool {{ true }} compiles to a circuit that its validation rejects");
+    }
     // ---- SSA, exhaustive
     for shape in SHAPES {
         let inputs: usize = shape.iter().sum();
